@@ -332,6 +332,7 @@ func c04Hunt(c *hx.Ctx, r *hx.RNG) {
 	tier := c.Tier
 	op := r.Intn(38)
 	name := ""
+	kf := ""
 	expectNaN := false
 	var recv *decimal.Decimal
 	newZ := func() *decimal.Decimal {
@@ -409,6 +410,9 @@ func c04Hunt(c *hx.Ctx, r *hx.RNG) {
 		}
 		X, Y, U, z := mkHunt(r, x), mkHunt(r, y), mkHunt(r, u), newZ()
 		name, expectNaN = "FMA", oracle.FMA(x, y, u, 0).NaN
+		if fmaProductOutOfRange(&opCase{op: "FMA", x: x, y: y}) {
+			kf = "fma_product_exponent_out_of_range"
+		}
 		f = func() { z.FMA(X, Y, U) }
 	case 8: // Sqrt
 		x := huntVal(r, tier, 0)
@@ -695,7 +699,7 @@ func c04Hunt(c *hx.Ctx, r *hx.RNG) {
 	}
 	switch {
 	case pi == nil && expectNaN:
-		c.Violate("missing-ErrNaN", name+": invalid operation did not panic", "")
+		c.Violate("missing-ErrNaN", name+": invalid operation did not panic", kf)
 	case pi == nil:
 	case pi.IsNaN && expectNaN:
 		c.Count("hunt_ErrNaN_panics", 1)
@@ -703,7 +707,7 @@ func c04Hunt(c *hx.Ctx, r *hx.RNG) {
 			afterNaN(c, name, recv)
 		}
 	case pi.IsNaN:
-		c.Violate("unexpected-ErrNaN", fmt.Sprintf("%s: valid operation panicked with ErrNaN %q", name, pi.Text), "")
+		c.Violate("unexpected-ErrNaN", fmt.Sprintf("%s: valid operation panicked with ErrNaN %q", name, pi.Text), kf)
 	default:
 		c.Violate("panic", fmt.Sprintf("%s: %s panic %q at %s", name, pi.Class, pi.Text, pi.Stack), "")
 	}
